@@ -58,6 +58,43 @@ CHECKS = [
         "claim is checked on the regenerated dtype table; wrap-around and rounding themselves are observed by differential execution "
         "(int8/uint8/int16 totals beyond the input width; var/std eager vs chunked within 1e-9).", CORR, "DESIGN.md §7 C20",
         note=TB + " Floating-point rounding and integer wrap-around are runtime behaviours the exact model cannot exhibit: observed, not proved."),
+    chk("C18",
+        "Lean theorems over the model of aggregate_flox.quantile_ (one partition of label+1j*value, cumulative valid counts as "
+        "offsets, floor/ceil, _lerp, NaN masks): for every array of finite values and NaNs, any unsorted codes, q in [0,1] and "
+        "either NaN policy every slot holds NumPy's linear-interpolation (nan)quantile of exactly that group's members (all-NaN "
+        "groups included), absent groups get the fill; _lerp is exact interpolation within its bounds; a vector q adds one leading "
+        "axis in the given order, a scalar none; chunked input is accepted under the blockwise plan only and a group spanning "
+        "blocks is refused. Tied to /repo by differential execution of groupby_reduce (eager and dask, engines "
+        "flox/numpy/default, 1-D and 2-D, scalar and vector q) against the Lean model and a NumPy oracle, exhaustive over all "
+        "arrays on {NaN,1,4} x labellings on {0,1,2} up to length 4 (sorted: 6) in thorough.",
+        "Lean 4 proof over a hand-written model; correspondence (differential) tie incl. bounded-exhaustive enumeration; "
+        "failing-input search",
+        "DESIGN.md §7 C18"),
+    chk("C10",
+        "Lean theorems over a bug-for-bug model of groupby_scan (aggregate_flox.ffill, numpy_groupies nancumsum, chunk_scan, "
+        "grouped_reduce, scan_binary_op in both modes incl. the nanlast state update, dask's Blelloch wiring, entry shortcuts, "
+        "reverse for bfill): the kernels equal the per-group sequential NumPy scan (ffill for all inputs; nancumsum without +-inf), "
+        "the state-combine is a homomorphism so ANY bracketing of the carried prefixes and ANY chunking gives the eager result, "
+        "bfill = reverse . ffill . reverse, no cross-group flow; named exclusions (shortcut, +-inf) each with a kernel-checked "
+        "counterexample confirmed on the real code (findings C10-F1..F5). Tie: differential execution of flox.groupby_scan "
+        "(eager and dask, every chunking of small arrays exhaustively) against the Lean model/spec and a pure-Python oracle.",
+        "Lean 4 proof over a hand-written model; correspondence (differential) tie incl. exhaustive small-space enumeration; "
+        "failing-input search",
+        "DESIGN.md §7 C10"),
+    chk("C17",
+        "Lean theorems over an executable model of _get_optimal_chunks_for_groups, rechunk_for_blockwise (factorise + optimal) and "
+        "the division loop of rechunk_for_cohorts, for all label vectors / chunkings / hints: new chunks are positive and sum to "
+        "the axis length; for sequential labels (each label one contiguous run) no group straddles a new boundary and every "
+        "label lives in exactly one block (what method='blockwise' relies on); after rechunk_for_cohorts position 0 and every "
+        "forced label start a chunk and, unless ignore_old_chunks, every old boundary is kept; the helper returns iff the label "
+        "length matches and a forced label occurs. Necessity of the sequential hypothesis and of the 'unless' shown by "
+        "counterexample theorems. Model tied to /repo by differential execution (array, DataArray, Dataset flavours, the "
+        "internal rechunk of groupby_reduce(method='blockwise'), memoisation history) incl. exhaustive enumeration of all "
+        "run-length patterns x chunkings for n<=9; same shape/dtype/values and untouched other axes are checked by "
+        "execution only (dask/xarray are not modelled).",
+        "Lean 4 proof over a hand-written model; correspondence (differential) tie with exhaustive small-scope enumeration; "
+        "independent Python oracle for the postconditions; failing-input search",
+        "DESIGN.md §7 C17"),
 ]
 
 _PENDING = "check not built yet in this round (planned: Lean model + correspondence, see DESIGN.md §7)"
